@@ -83,6 +83,7 @@ def main():
     d = os.path.abspath(a.dir)
     meta = json.load(open(os.path.join(d, "meta.json")))
     props = a.props.split(",") if a.props else [meta["property"]]
+    shutil.rmtree(os.path.join(d, "replays"), ignore_errors=True)
     base = tempfile.mkdtemp(prefix="ztrseed-")
     wt = os.path.join(base, "wt")
     vcopy = os.path.join(base, "verif")
@@ -133,6 +134,8 @@ def main():
                         if os.path.exists(rp):
                             try:
                                 entry["replay_excerpt"] = open(rp).read()[:3000]
+                                os.makedirs(os.path.join(d, "replays"), exist_ok=True)
+                                shutil.copy(rp, os.path.join(d, "replays", "%s-%s" % (p, os.path.basename(rp))))
                             except OSError:
                                 pass
             res["checks"][p] = entry
